@@ -290,6 +290,20 @@ def run_impl(case, run):
             index.tree = rec
         except Exception:  # noqa   (a rewrite without .tree: only the result is compared)
             rec = None
+        for extra in range(run.get("others_between", 0)):
+            try:
+                if extra == 0:
+                    other = GeoIndex(lat[::-1].copy(), lon[::-1].copy(), **kwargs)          # same size
+                    other.query(qlat[:1], qlon[:1], r=radius_arg(case["r"]))
+                else:
+                    GeoIndex(np.concatenate([lat, lat[:1]]), np.concatenate([lon, lon[:1]]), **kwargs)   # another size
+            except Exception as e:  # noqa
+                o["error"] = f"second GeoIndex(): {type(e).__name__}: {str(e)[:120]}"
+                return o
+        sh2 = getattr(index, "shuffler", None)
+        sh2 = None if sh2 is None else [int(t) for t in np.asarray(sh2).ravel()]
+        if sh2 != o["shuffler"]:
+            o["shuffler_changed"] = [o["shuffler"], sh2]
         try:
             res = index.query(qlat, qlon, r=radius_arg(case["r"]))
         except Exception as e:  # noqa
@@ -310,6 +324,17 @@ def run_impl(case, run):
             o["dist"] = [float(x) for x in dist.ravel()] if dist.dtype.kind in "fiu" else None
         else:
             o["error"] = f"pairs has shape {list(pairs.shape)}"
+        # the same query without distances: the pairs must be the same pairs (indices of the arrays as passed in)
+        try:
+            p2 = np.asarray(index.query(qlat, qlon, r=radius_arg(case["r"]), return_distance=False))
+            if p2.size == 0:
+                o["pairs_nodist"] = []
+            elif p2.ndim == 2 and p2.shape[0] == 2:
+                o["pairs_nodist"] = sorted((int(a), int(b)) for a, b in zip(p2[0], p2[1]))
+            else:
+                o["pairs_nodist_error"] = f"query(return_distance=False) returned shape {list(p2.shape)}"
+        except Exception as e:  # noqa
+            o["pairs_nodist_error"] = f"query(return_distance=False): {type(e).__name__}: {str(e)[:120]}"
         return o
     finally:
         np.random.set_state(state)
@@ -465,8 +490,10 @@ def gen_runs(rng, case, k):
     for i in range(k):
         tree = rng.choice([None, "Ball", "KD"]) if metric_of(case) == "minkowski" else rng.choice([None, "Ball"])
         shuffle = rng.choice([None, True, True, False])
+        # history: between the construction of the index and its query, other indexes are built (same size and
+        # another size, same and other points) -- the answer of the first index must not depend on them
         runs.append({"tree": tree, "leaf": rng.choice([None, None, 1, 2, 5, 40, 100]), "shuffle": shuffle,
-                     "seed": rng.randrange(2 ** 31)})
+                     "seed": rng.randrange(2 ** 31), "others_between": rng.choice([0, 0, 1, 2])})
     if not any(r["shuffle"] is not False for r in runs):
         runs[0]["shuffle"] = True
     return runs
@@ -653,11 +680,28 @@ def check_cases(ctx, cases, tbl, stats):
                     if abs(float(call["r"]) - float(rt)) > 1e-9 * float(rt):
                         why = f"; the tree was asked for radius {float(call['r'])!r}, the model for {float(rt)!r}"
                         sig = "radius:" + tag
+                if o.get("shuffler_changed"):
+                    sig = "history:" + tag
+                    why += (f"; the index's shuffler changed from {o['shuffler_changed'][0][:8]} to {o['shuffler_changed'][1][:8]} "
+                            f"when {run.get('others_between')} other GeoIndex objects were built between its construction and this query")
                 if shortcut:
                     sig = "zero-pair-shortcut"
                     why += "; the pair array itself came back as `distances` (short cut taken for a non-empty result)"
                 problems.append((sig, f"pairs missing {missing[:5]} ({len(missing)}), not within the radius "
                                       f"{extra[:5]} ({len(extra)}); shuffler {None if sh is None else sh[:8]}{why}"))
+            # 1b. query(..., return_distance=False): the same pairs (outside the guard band), each once
+            if "pairs_nodist_error" in o:
+                problems.append(("nodist-error", o["pairs_nodist_error"]))
+            elif "pairs_nodist" in o:
+                nd = o["pairs_nodist"]
+                ndset = set(nd)
+                miss2 = sorted(set(spec) - ndset - greyset)
+                extra2 = sorted(ndset - set(spec) - greyset)
+                if len(ndset) != len(nd) or miss2 or extra2:
+                    problems.append(("pairs-without-distances:" + tag,
+                                     f"query(return_distance=False): pairs missing {miss2[:5]} ({len(miss2)}), not within the radius "
+                                     f"{extra2[:5]} ({len(extra2)}), repeated {len(nd) - len(ndset)}; with distances the call returned "
+                                     f"{sorted(got)[:5]}; shuffler {None if sh is None else sh[:8]}"))
             # 2. the distances: one per pair, kilometres, aligned
             if dists is None or o["dist_shape"] != [len(got)]:
                 sig = "zero-pair-shortcut" if shortcut else "distances-shape"
@@ -826,7 +870,7 @@ def run(ctx):
         "decisions inside the guard band around the radius are not compared (either outcome accepted)",
         "KD tree + haversine is rejected by scikit-learn itself and is not generated; the largest inputs have 5000 points on one "
         "side and at most 8 on the other (the dense distance matrix is evaluated inside Coq)",
-        "query() is called as in the statement (return_distance left at its default True)",
+        "query() is called as in the statement (return_distance left at its default True) and once more with return_distance=False (pairs only)",
     ]
     return ctx.finish(trusted_base=TRUSTED)
 
